@@ -804,14 +804,10 @@ func inGraphNew(m *Machine, fn *ssa.Function, a []Value) Value {
 			for i, j := range out {
 				vals[i] = gs.names[j]
 			}
-			sl := m.stringSlice(vals).(Slice)
-			if sl.Len > 1 {
-				m.insertionSort(sl, func(i, j int) bool {
-					e := sliceElems(sl)
-					return m.branch(fromTerm(StrLt(toTerm(e[i]), toTerm(e[j]))))
-				})
-			}
-			return sl
+			// the real library returns the set in lexical order; the order is
+			// not modelled (it would fork on str.< of symbolic names): callers
+			// must not depend on it beyond the order of their own diagnostics.
+			return m.stringSlice(vals)
 		case "CircularDeps":
 			// abstract: one cycle through each node lying on a cycle (each
 			// cycle reported once, starting from its smallest node index).
